@@ -80,6 +80,17 @@ func (r *Report) Check(cond bool, rule, config, subject, pos, okHow, failMsg str
 	return cond
 }
 
+// Failed counts the violated obligations recorded so far.
+func (r *Report) Failed() int {
+	n := 0
+	for _, o := range r.Obls {
+		if !o.OK {
+			n++
+		}
+	}
+	return n
+}
+
 // Count adds n to a named counter.
 func (r *Report) Count(name string, n int) { r.Counts[name] += n }
 
